@@ -5,7 +5,9 @@ props=[json.loads(l) for l in open('/verif/properties.jsonl')]
 TECH="contract-based deductive verification: weakest-precondition style VCs generated from go/ssa of the real packages, contracts in guarded comment files, obligations discharged by z3/cvc5"
 NOTE_COMMON=("Trusted: Go type checker, x/tools go/ssa v0.29.0, the govc generator, z3 5.1.0 / z3 4.8.12 / cvc5 1.0.3; integers mathematical; string contents uninterpreted; "
  "hclsyntax AST well-formedness lines of /verif/trusted/base.spec (assumed, listed per run in the evidence); dependency code neither panics outside inlined bodies/trusted preconditions nor writes through its arguments. "
- "Only obligations in /verif/baseline/<id>.json (those that discharge on the pinned tree) are counted as proved; the others are listed as unproved_not_claimed in the evidence.")
+ "Only obligations in /verif/baseline/<id>.json (those that discharge on the pinned tree) are counted as proved; the others are listed as unproved_not_claimed in the evidence. "
+ "Besides the clauses tagged with the property, a check carries the SAFE/FRAME obligations of the functions in the property's anchor files, the FRAME obligations of every hcl-lang function they call and the COPY obligations of the Copy methods they use (callers are verified against those contracts). "
+ "Quick tier: obligations not discharged on the pinned tree and clauses of other properties get one short solver attempt; thorough tier: full limits, cross-solver check, mutation canaries (at most 8 seeded changes per run, rotating with VERIF_SEED), audit of the trusted facts.")
 claimed={
  "C01":("Panic freedom: one SAFE obligation per potentially panicking instruction (index, slice, nil dereference, nil map write, unchecked type assertion, division, explicit panic, nil receiver at call sites, panicking instructions of inlined dependency functions) of every function of the nine packages, for all inputs admitted by the stated type invariants and for every iteration (loops are cut with invariants). Proved for the claimed obligations only; termination of recursion is not proved.",
         "DESIGN.md §3.1, §7 C01"),
@@ -36,7 +38,7 @@ na=[{"property_id":p['id'],"reason":reasons_na.get(p['id'],"check not built yet 
 commits=subprocess.run(['git','-C','/repo','log','--format=%H %s','bb575cd..HEAD'],capture_output=True,text=True).stdout.strip().split('\n')
 hooks=[c.split()[0] for c in commits if c and ' verif:' in c]
 m={"version":1,"setup_cmd":"./setup.sh",
- "hooks":{"guard":"verif","enable":"govc loads /repo with go/packages BuildFlags -tags=verif; the guarded files zz_verif_contracts.go are comment-only (package clause + //@ contract lines) and add no code",
+ "hooks":{"guard":"verif","enable":"govc loads /repo with go/packages BuildFlags -tags=verif; the guarded files zz_verif_contracts*.go (one or more per package) are comment-only (package clause + //@ contract lines) and add no code",
    "baseline_off_cmd":"cd /repo && GOFLAGS=-mod=mod go test -vet=off -count=1 -timeout 25m ./...","source_commits":hooks,"add_only":True},
  "engines":[{"name":"govc","path":"/verif/engine","serves_properties":sorted(claimed),"kind_free_text":"verification-condition generator over go/ssa of the real packages; contracts in guarded comment files in /repo plus generated COPY contracts; obligations discharged by z3 5.1.0 / z3 4.8.12 / cvc5 1.0.3"}],
  "checks":checks,"notes":"see DESIGN.md section 0; ./check <id> quick|thorough; ./check --replay <file>; known findings in KNOWN_FINDINGS.json; seeded changes in seeded/, behaviour-preserving changes in benign/","not_applicable":na}
